@@ -14,7 +14,25 @@ def plan(plan, tier, seed):
         plan.verus.append(VerusUnit("c17_fsm", unit, {"execute_fsm_pipe_impl": n1}, ["canary_fsm"]))
     except AnchorLost as e:
         plan.anchor_errors.append((n1, str(e)))
-    plan.functions += ["src/interpreter/src/state_machines.rs: execute_fsm_pipe_impl"]
+    n2 = "C17.verus.apply_transitions.in_order_until_output"
+    plan.ob(n2, "verus", "proved", functions=["apply_transitions (whole body)"],
+            what="the transitions of the taken arm run in source order: `->`/`~>` replace the state with the value of their pattern, statements and code-block lines run for their effect, the first output ends the list with its value and nothing after it runs; any failure ends it with an error; the environment is only read (every evaluator call is recorded in a ghost log, results may depend on the calls made before)")
+    try:
+        unit = vlib.verus_file([vC17._apply_model(), vC17.apply_fn(text), vlib.verus_canary("canary_apply", "x: u64", [])])
+        plan.verus.append(VerusUnit("c17_apply", unit, {"apply_transitions": n2}, ["canary_apply"]))
+    except AnchorLost as e:
+        plan.anchor_errors.append((n2, str(e)))
+    n3 = "C17.verus.validate_transition_target_state.undeclared_target_rejected"
+    plan.ob(n3, "verus", "proved", functions=["validate_transition_target_state (whole body)"],
+            what="a `->` / `~>` transition whose pattern names a state is accepted iff that state is among the declared state names; other transitions are accepted")
+    try:
+        unit = vlib.verus_file([vC17.VT_MODEL, vC17.target_fn(text), vlib.verus_canary("canary_target", "x: u64", [])])
+        plan.verus.append(VerusUnit("c17_target", unit, {"validate_transition_target_state": n3}, ["canary_target"]))
+    except AnchorLost as e:
+        plan.anchor_errors.append((n3, str(e)))
+    plan.dropped.append(vC17.target_fn.__doc__.strip())
+    plan.dropped.append(vC17.apply_fn.__doc__.strip())
+    plan.functions += ["src/interpreter/src/state_machines.rs: execute_fsm_pipe_impl, apply_transitions"]
     plan.dropped += [vC17.__doc__.strip()]
     plan.trusted += ["Verus 0.2026.09.13 / Z3"]
     plan.assumptions += [
@@ -22,5 +40,5 @@ def plan(plan, tier, seed):
         "syntax-tree nodes are opaque identities; MResult errors are `None`; trace_println! statements are removed",
         "termination: the outer loop is `for step in 0..p.max_steps`, each inner loop ranges over a finite list (Verus checks the for-loops' implicit measures); evaluators are assumed to return",
     ]
-    plan.undecided_clauses += ["C17: execute_fsm_pipe (spec lookup, argument count and kind check, start state), validate_fsm_state_coverage / validate_transition_target_state (undeclared target, state without arm), apply_transitions' own body, the declared output kind"]
+    plan.undecided_clauses += ["C17: execute_fsm_pipe (spec lookup, argument count and kind check, start state), validate_fsm_state_coverage (which transitions it visits, the start-state check, 'declared state without an arm'), the declared output kind; the contracts of execute_fsm_pipe_impl (apply_transitions uninterpreted) and of apply_transitions are proved separately and not composed mechanically"]
     plan.level = "proof"
